@@ -432,6 +432,16 @@ class Builtins:
                 # set of record objects: membership by ProvRecord.__hash__/__eq__, i.e. by the record key
                 self.cx.deps.add("eqmodel:ProvRecord.__eq__/__hash__")
                 return k(st, ex.oset_of_seq(a, st))
+            if isinstance(a, PyV) and a.kind == "mapvalues" and a.data.ty.kind == "map" and a.data.ty.args[1] == T.NS:
+                # set(d.values()) of namespaces: modelled as a list of its members in some order (the members
+                # are what matters; Namespace.__eq__/__hash__ are structural)
+                m = a.data
+                kk, vv = m.ty.args
+                r = self.cx.fresh("nsset", T.Seq(vv))
+                ks, es = S.sort(kk), S.sort(vv)
+                ax1 = "(forall ((x %s)) (=> (seq.contains %s (seq.unit x)) (exists ((k %s)) (= (select %s k) %s))))" % (es, r.t, ks, m.t, S.some(vv, "x"))
+                ax2 = "(forall ((k %s)) (=> (not (= (select %s k) %s)) (seq.contains %s (seq.unit %s))))" % (ks, m.t, S.none(vv), r.t, S.the(vv, "(select %s k)" % m.t))
+                return k(st.assume(ax1, ax2), r)
             if isinstance(a, PyV) and a.kind == "mapvalues":
                 m = a.data
                 kk, vv = m.ty.args
